@@ -148,6 +148,15 @@ func runC16(r *simkit.Run, c Cfg) {
 		}
 	}
 	rc := must(announce.NewReceiver(nil, "", opts...))
+	// In half of the random runs a Close call can be held between setting
+	// the closed flag and the rest of its work (a scheduling point in the
+	// library): another Close call that finds the flag set returns at once,
+	// and what its caller does next must find the receiver closed as well.
+	closeGap := c.Case < 0 && tp.Chance(1, 2, "closeGap")
+	if closeGap {
+		r.InstallHooks(simkit.NewNamer())
+		r.EnableSites(map[string]bool{"recv.closing": true})
+	}
 
 	// Build the scripts.
 	var script [][2]int
@@ -323,6 +332,7 @@ func runC16(r *simkit.Run, c Cfg) {
 
 	next := 0 // enumerated mode: index into order
 	nextOf := make([]int, ntasks)
+	closeReturned := false // some Close call has returned
 	for steps := 0; steps < 200; steps++ {
 		r.Quiesce()
 		check()
@@ -330,6 +340,50 @@ func runC16(r *simkit.Run, c Cfg) {
 			break
 		}
 		en := r.Enabled()
+		// a Close call held in its gap: until it is let go, only it, other
+		// Close calls, and - once some Close call has returned - Next calls
+		// are scheduled (what the other calls do while a Close is half-way
+		// is not what this device is after)
+		var gap *simkit.Parked
+		for _, p := range en {
+			if p.Site == "recv.closing" {
+				gap = p
+			}
+		}
+		if gap != nil {
+			var keep []*simkit.Parked
+			for _, p := range en {
+				if p.Site != "op" {
+					continue
+				}
+				var ti int
+				fmt.Sscanf(p.Who, "T%d", &ti)
+				if nextOf[ti] >= len(perTask[ti]) {
+					continue
+				}
+				if op := perTask[ti][nextOf[ti]].op; op == rcOpClose || op == rcOpNext && closeReturned {
+					keep = append(keep, p)
+				}
+			}
+			if k := tp.Choose(len(keep)+1, "gapSched"); k == len(keep) {
+				r.Logf("~sched", "let the held Close go on")
+				r.Release(gap, nil)
+				r.Quiesce()
+				for _, call := range order {
+					if call.op == rcOpClose && call.returned {
+						call.mayBlock = false
+						closeReturned = true
+					}
+				}
+				check()
+				if r.Failed() {
+					break
+				}
+				continue
+			}
+			en = keep
+			r.Probe("call-made-while-a-close-is-half-way")
+		}
 		// a cancellable Direct that waits for the consumer may be cancelled
 		var cancellable []*rcCall
 		if c.Case < 0 {
@@ -411,6 +465,16 @@ func runC16(r *simkit.Run, c Cfg) {
 		r.State(fmt.Sprintf("closed=%v buf=%d snd=%d rcv=%d seen=%d", m.closed, len(m.buf), len(m.senders), len(m.recvs), len(m.seen)))
 		r.Release(pick, nil)
 		r.Quiesce()
+		if call.op == rcOpClose && !call.returned {
+			for _, p := range r.AllParked() {
+				if p.Site == "recv.closing" {
+					call.mayBlock = true // held by the scheduler
+				}
+			}
+		}
+		if call.op == rcOpClose && call.returned {
+			closeReturned = true
+		}
 		// Result checks for the call just made, if it returned.
 		if call.returned {
 			switch call.op {
